@@ -64,6 +64,32 @@ def _range_has_width(d):
     return 1 if chi > 0 else -1
 
 
+def _nonempty_data(d):
+    """len(data) - c > 0 for c <= 1 (the statement is about data sets, signals of length 2..2^17)"""
+    if isinstance(d, Form):
+        for sign in (1, -1):
+            e = d * sign
+            for ln in (mk_fn("len", [S("data")]), mk_fn("size", [S("data")]), S("data.size")):
+                q = (e - ln).rational() if isinstance(e - ln, Form) else None
+                if q is not None and q > -2:
+                    return sign
+    return None
+
+
+def _adc_domain(d):
+    r = _range_has_width(d)
+    if r is not None:
+        return r
+    if isinstance(d, Form):
+        q = (d - S("n")).rational() if isinstance(d - S("n"), Form) else None
+        if q is not None and q >= -1:
+            return "ge0" if q == -1 else 1           # n >= 1
+        q = (d + S("n")).rational() if isinstance(d + S("n"), Form) else None
+        if q is not None and q <= 1:
+            return "le0" if q == 1 else -1
+    return None
+
+
 def peel_cast(v):
     """astype(x, T) -> x (a cast AFTER the clamp acts on codes already inside [0, 2**n-1])"""
     a = v.single_atom() if isinstance(v, Form) else None
@@ -144,7 +170,8 @@ def run(ctx):
             it = Interp(pkg, param_classes={"input": "electrical_signal"}, assumptions={"input.noise": noise, "fs": None, "otype": ot, "n": ("inst", "int")}, no_inline=("shortest_int",))
             it.domain_pred = _real_signals           # "for all real signals", n an integer number of bits
             it.keep_astype = True      # a cast between rounding and clamping matters (wrap-around of out-of-range codes)
-            it.domain_sign = _range_has_width      # the statement is about signals whose 99.99% range has positive width
+            it.domain_sign = _adc_domain           # the statement is about signals whose 99.99% range has positive width, and n in 1..12
+            it.finite_domain = True                # "real signals": finite samples
             outs = it.run(fi)
             rets = [o for o in outs if o.kind == "return"]
             if len(rets) != 1 or not isinstance(rets[0].value, ObjV):
@@ -210,6 +237,8 @@ def run(ctx):
     # ---------------------------------------------------------------- shortest_int
     fs_ = pkg.func("utils.shortest_int")
     it = Interp(pkg)
+    it.finite_domain = True                       # data sets of real numbers
+    it.domain_sign = _nonempty_data               # ... with at least two of them
     outs = it.run(fs_)
     rets = [o for o in outs if o.kind == "return"]
     if len(rets) != 1:
